@@ -127,11 +127,11 @@ package drpcmanager
 //@   ghost after:Decode gotMeta = true
 //@   ghost after:Decode metaSid = pkt.ID.Stream
 //@   loop 1 invariant [m] m == m0 && m.wr != nil && (!gotMeta ==> metaID == 0 && meta == nil) && (gotMeta ==> metaID == metaSid)
-//@   site AddPairs assert [C11.scope] arg1 == meta && eventCount("call:AddPairs") == 0 && (meta != nil ==> gotMeta && metaSid == pkt.ID.Stream)
+//@   site AddPairs assert [C11,C02.scope] arg1 == meta && eventCount("call:AddPairs") == 0 && (meta != nil ==> gotMeta && metaSid == pkt.ID.Stream)
 //@   site (*Manager).newStream assert [C02.invoke-id] eventCount("call:(*Manager).newStream") == 0
 //@   ghost entry actx = nil
 //@   ghost after:AddPairs actx = ret
-//@   site (*Manager).newStream assert [C11.attached] (gotMeta && metaSid == arg2) ==> eventCount("call:AddPairs") == 1 && arg1 == actx
+//@   site (*Manager).newStream assert [C11,C02.attached] (gotMeta && metaSid == arg2) ==> eventCount("call:AddPairs") == 1 && arg1 == actx
 //@   assumes "ctx.Err() is non-nil once ctx.Done() is closed (context package contract); the manager's term signal is only ever set with a non-nil error ([nonnil-set] in terminate)"
 //@   site Err#1 assumeafter [ctx-err] ret != nil
 //@   site (*Signal).Err assumeafter [nonnil] ret != nil
